@@ -209,7 +209,8 @@ def expand(item):
         if item.get('pre'):
             menu += pre_menu(base)
             menu += late_menu(base)
-            menu.append(('', 'peek', True))
+            menu += [('', 'peek', 'exits'), ('', 'peek', 'succ'),
+                     ('', 'peek', 'list')]
             menu += [('', 'build', 'addrev'), ('', 'build', 'update'),
                      ('', 'build', 'lateattrs')]
             menu += dangle_menu(base)
